@@ -53,9 +53,10 @@ type cellMeta struct {
 }
 
 type muState struct {
-	writer  int // goroutine id holding the write lock, -1 none
-	readers map[int]int
-	lw, lr  vclock // released by writers / by readers
+	writer   int // goroutine id holding the write lock, -1 none
+	pendingW int // goroutine id that has announced Lock and waits for the readers to leave, -1 none
+	readers  map[int]int
+	lw, lr   vclock // released by writers / by readers
 }
 
 type pendingOp struct {
@@ -77,26 +78,31 @@ type gthread struct {
 type threadKilled struct{}
 
 type threadState struct {
-	in       *Interp
-	threads  []*gthread // index 0 = the harness's main goroutine
-	cur      int
-	running  bool // inside vJoin
-	mainCh   chan struct{}
-	abort    interface{} // panic value raised inside a goroutine
-	killed   bool
-	mus      map[*Value]*muState
-	cells    map[*Value]*cellMeta
-	maps     map[*Map]*cellMeta
-	poolRel  map[*Value]vclock
-	races    map[string]bool
-	Switches int
+	in        *Interp
+	threads   []*gthread // index 0 = the harness's main goroutine
+	cur       int
+	running   bool // inside vJoin
+	mainCh    chan struct{}
+	abort     interface{} // panic value raised inside a goroutine
+	killed    bool
+	mus       map[*Value]*muState
+	cells     map[*Value]*cellMeta
+	maps      map[*Map]*cellMeta
+	poolRel   map[*Value]vclock
+	races     map[string]bool
+	Switches  int
+	tryResult bool
+	atomRel   map[*Value]vclock // release clocks of cells accessed with sync/atomic
+	last      int               // goroutine that ran last (for the preemption bound)
+	preempts  int               // preemptive switches so far
+	bound     int               // -1: unbounded; n: at most n preemptive switches, then run to completion
 }
 
 func (in *Interp) threadMode() *threadState {
 	if in.th == nil {
 		main := &gthread{id: 0, clock: vclock{1}, started: true}
 		in.th = &threadState{in: in, threads: []*gthread{main}, mainCh: make(chan struct{}), mus: map[*Value]*muState{},
-			cells: map[*Value]*cellMeta{}, maps: map[*Map]*cellMeta{}, poolRel: map[*Value]vclock{}, races: map[string]bool{}}
+			cells: map[*Value]*cellMeta{}, maps: map[*Map]*cellMeta{}, poolRel: map[*Value]vclock{}, races: map[string]bool{}, atomRel: map[*Value]vclock{}, bound: -1}
 	}
 	return in.th
 }
@@ -196,12 +202,21 @@ func (t *threadState) enabled(g *gthread) bool {
 	if g.pending == nil {
 		return true
 	}
+	if g.pending.mu == nil {
+		return true
+	}
 	mu := t.muOf(g.pending.mu)
 	switch g.pending.op {
 	case "Lock":
-		return mu.writer < 0 && len(mu.readers) == 0
+		// sync.RWMutex.Lock first takes the writers' mutex and announces itself (always possible when no
+		// other writer holds or waits), then waits for the active readers to leave
+		return mu.writer < 0 && mu.pendingW < 0
+	case "LockWait":
+		return len(mu.readers) == 0
 	case "RLock":
-		return mu.writer < 0
+		// a reader arriving while a writer holds the lock or has announced itself blocks (writer
+		// preference: this is what makes recursive read locking deadlock-prone)
+		return mu.writer < 0 && mu.pendingW < 0
 	}
 	return true
 }
@@ -209,7 +224,7 @@ func (t *threadState) enabled(g *gthread) bool {
 func (t *threadState) muOf(p *Value) *muState {
 	m := t.mus[p]
 	if m == nil {
-		m = &muState{writer: -1, readers: map[int]int{}}
+		m = &muState{writer: -1, pendingW: -1, readers: map[int]int{}}
 		t.mus[p] = m
 	}
 	return m
@@ -224,18 +239,42 @@ func (t *threadState) lockOp(in *Interp, mu *Value, op string) {
 	}
 	m := t.muOf(mu)
 	switch op {
+	case "TryLock":
+		if m.writer < 0 && m.pendingW < 0 && len(m.readers) == 0 {
+			m.writer = g.id
+			g.clock = g.clock.join(m.lw).join(m.lr)
+			t.tryResult = true
+		} else {
+			t.tryResult = false
+		}
+	case "TryRLock":
+		if m.writer < 0 && m.pendingW < 0 {
+			m.readers[g.id]++
+			g.clock = g.clock.join(m.lw)
+			t.tryResult = true
+		} else {
+			t.tryResult = false
+		}
 	case "Lock":
-		if m.writer >= 0 || len(m.readers) > 0 {
+		if m.writer >= 0 || m.pendingW >= 0 || (len(m.readers) > 0 && (!t.running || g.id == 0)) {
 			if !t.running || g.id == 0 {
 				in.recordFinding("deadlock", "C10 no deadlock", "Lock on a mutex that is already held, outside any goroutine")
 				panic(pathEnd{"deadlock"})
 			}
 			panic(engineErr("scheduler resumed a goroutine whose Lock is not enabled"))
 		}
+		if len(m.readers) > 0 {
+			// announced; new readers are held back until this writer has had the lock
+			m.pendingW = g.id
+			g.pending = &pendingOp{mu: mu, op: "LockWait"}
+			t.yield(g)
+			g.pending = nil
+			m.pendingW = -1
+		}
 		m.writer = g.id
 		g.clock = g.clock.join(m.lw).join(m.lr)
 	case "RLock":
-		if m.writer >= 0 {
+		if m.writer >= 0 || m.pendingW >= 0 {
 			if !t.running || g.id == 0 {
 				in.recordFinding("deadlock", "C10 no deadlock", "RLock on a mutex that is write-locked, outside any goroutine")
 				panic(pathEnd{"deadlock"})
@@ -264,7 +303,23 @@ func (t *threadState) lockOp(in *Interp, mu *Value, op string) {
 	}
 }
 
-func (t *threadState) syncPoint(in *Interp, what string) {}
+// syncPoint: a non-blocking synchronising operation (sync/atomic, sync.Map): a scheduling point, and an
+// acquire-release edge through the cell it operates on.
+func (t *threadState) syncPoint(in *Interp, what string, cell *Value) {
+	g := t.curThread()
+	if t.running && g.id != 0 {
+		g.pending = &pendingOp{op: what}
+		t.yield(g)
+		g.pending = nil
+	}
+	if cell != nil && t.running {
+		if c, ok := t.atomRel[cell]; ok {
+			g.clock = g.clock.join(c)
+		}
+		t.atomRel[cell] = g.clock.copy()
+		t.tick()
+	}
+}
 
 // pool hand-off: Put(x) happens before the Get that returns x
 func (t *threadState) poolPut(x Value) {
@@ -350,11 +405,25 @@ func (t *threadState) join(in *Interp, fr *frame) {
 		}
 		pick := 0
 		if len(en) > 1 {
-			pick = in.ex.choose("schedule", make([]*Term, len(en)))
-			t.Switches++
+			lastIdx := -1
+			for i, g := range en {
+				if g.id == t.last {
+					lastIdx = i
+				}
+			}
+			if t.bound >= 0 && t.preempts >= t.bound && lastIdx >= 0 {
+				pick = lastIdx // preemption budget used up: the running goroutine keeps running
+			} else {
+				pick = in.ex.choose("schedule", make([]*Term, len(en)))
+				t.Switches++
+				if lastIdx >= 0 && pick != lastIdx {
+					t.preempts++
+				}
+			}
 		}
 		g := en[pick]
 		t.cur = g.id
+		t.last = g.id
 		if !g.started {
 			g.started = true
 			go t.runThread(in, fr, g)
@@ -432,7 +501,21 @@ func (in *Interp) lockOp(mu Value, op string) {
 	in.event("sync." + op)
 }
 
-func (in *Interp) syncPoint(what string) {}
+func (in *Interp) syncPoint(what string, cell *Value) {
+	if in.th != nil {
+		in.th.syncPoint(in, what, cell)
+	}
+}
+
+// tryLockOp: TryLock / TryRLock; outside thread mode the lock is always free.
+func (in *Interp) tryLockOp(mu Value, op string) Value {
+	if in.th != nil {
+		in.th.lockOp(in, mu.(*Value), op)
+		return mkBool(in.th.tryResult)
+	}
+	in.event("sync." + op)
+	return mkBool(true)
+}
 
 func (in *Interp) onPoolPut(x Value) {
 	if in.th != nil && in.th.running {
@@ -453,6 +536,12 @@ func (in *Interp) spawn(fr *frame, fn Value, args []Value) {
 func init() {
 	harnessAPI["vGo"] = func(in *Interp, fr *frame, a []Value) Value {
 		in.threadMode().register(a[0])
+		return nil
+	}
+	harnessAPI["vSchedBound"] = func(in *Interp, fr *frame, a []Value) Value {
+		t := in.threadMode()
+		t.bound = asInt(a[0])
+		t.preempts = 0
 		return nil
 	}
 	harnessAPI["vJoin"] = func(in *Interp, fr *frame, a []Value) Value {
